@@ -22,9 +22,9 @@ META = {
         "R-NAT (vf/ref/national.py) encodes the published national rules on the published absolute BBAN layouts",
         "DONT_CARE: Norway when the account part starts with 00 and the two published readings disagree; countries whose BBAN length in the tree differs from the published layout",
     ],
-    "min_distinct": {"quick": 5000, "thorough": 100000},
+    "min_distinct": {"quick": 10000, "thorough": 800000},
 }
-SIZES = {"quick": dict(per=260, other=24, lib=30), "thorough": dict(per=9000, other=600, lib=800)}
+SIZES = {"quick": dict(per=600, other=40, lib=60), "thorough": dict(per=40000, other=2500, lib=3000)}
 
 
 def plan(tier, seed):
